@@ -106,6 +106,58 @@ def judge(case):
         root = leaves = ls = level = y = y0 = y1 = None
     return {"nontrivial": n >= 100, "outcome": "ok", "violations": viol}
 
+def _build(sg, kind, n):
+    """-> (root, number of recorded operations)"""
+    T = sg.Tensor
+    if kind == "chain":
+        y = T(np.array([1.0, -2.0]), requires_grad=True)
+        for _ in range(n): y = y * 1.0001
+        return y, n
+    if kind == "ladder":
+        y0 = T(np.array([1.0, 2.0]), requires_grad=True); y1 = T(np.array([-1.0, 0.5]), requires_grad=True)
+        for _ in range(n): y0, y1 = y1, y0 * 0.5 + y1 * 0.5
+        return y1, 3 * n
+    if kind == "tree":
+        level = [T(np.array([float(i + 1)]), requires_grad=True) for i in range(n)]; nops = 0
+        while len(level) > 1:
+            nxt = [level[i] + level[i + 1] for i in range(0, len(level) - 1, 2)]; nops += len(nxt)
+            if len(level) % 2: nxt.append(level[-1])
+            level = nxt
+        return level[0], nops
+    if kind == "fanin":
+        return sg.concat([T(np.array([float(i)]), requires_grad=True) for i in range(n)], 0).sum(), 2
+    if kind == "fanin_stack_computed":
+        x = T(np.array([1.0]), requires_grad=True)
+        return sg.stack([x * float(i + 1) for i in range(n)], 0).sum(), n + 2
+    raise harness.HarnessError(kind)
+
+def judge_cost(case):
+    """work (python + C call events inside backward, counted with sys.setprofile - no wall clock) must grow linearly:
+    the increments of work between sizes n, 2n, 4n may at most double (tolerance 2.5)"""
+    sg = harness.load(); harness.reset_modes(verify=False)
+    kind, n = case["shape"], case["n"]
+    work = []
+    for size in (n, 2 * n, 4 * n):
+        root, nops = _build(sg, kind, size)
+        g = sg.Tensor(np.ones(root.shape))
+        cnt = [0]
+        def prof(frame, event, arg):
+            if event in ("call", "c_call"): cnt[0] += 1
+        sys.setprofile(prof)
+        try:
+            root.backward(g)
+        finally:
+            sys.setprofile(None)
+        work.append(cnt[0]); root = None
+    d1, d2 = work[1] - work[0], work[2] - work[1]
+    viol = []
+    if d1 <= 0 or d2 / d1 > 2.5:
+        viol.append({"kind": f"{kind}:superlinear-cost", "detail": f"call events inside backward for sizes {n},{2 * n},{4 * n}: {work}; increment ratio {d2 / max(d1, 1):.2f} (linear = 2.0)"})
+    return {"nontrivial": True, "outcome": "ok", "violations": viol}
+
+def dispatch(case):
+    return judge_cost(case) if case["kind"] == "cost" else judge(case)
+
 def all_cases(tier):
     sizes = SIZES_Q if tier == "quick" else SIZES_T
     out = []
@@ -113,15 +165,18 @@ def all_cases(tier):
         for n in sizes:
             if kind == "ladder" and n > 20000: continue
             out.append({"kind": kind, "n": n})
+    for shape in ("chain", "ladder", "tree", "fanin", "fanin_stack_computed"):
+        for n in ((100, 250) if tier == "quick" else (100, 250, 600)):
+            out.append({"kind": "cost", "shape": shape, "n": n})
     return out
 
 def replay(case):
     with harness.quiet():
-        return judge(case)["violations"]
+        return dispatch(case)["violations"]
 
 def run(tier, seed):
     cases = all_cases(tier)
-    r = engine.run_cases(cases, judge)
+    r = engine.run_cases(cases, dispatch)
     cov = {"evaluations": r["evaluations"], "distinct_nontrivial": r["distinct_nontrivial"],
            "rule": "program shapes {chain, diamond ladder (each node feeds the next two), binary-tree reduction, wide fan-in, "
                    "untracked loop under no_grad, untracked loop with no operand requiring grad} x sizes %s, default recursion "
